@@ -394,7 +394,8 @@ enum {
     K_SETCELL, K_GETCELL, K_SETMATRIX, K_GETMATRIX, K_SETFROMVEC,
     K_GETTOVEC, K_GETZ0, K_SETZ0, K_GETZ0VEC, K_SETZ0VEC, K_SETALLZ0,
     K_HASFZ0, K_GETFZ0, K_SETFZ0, K_GETFZ0VEC, K_SETFZ0VEC,
-    K_SETFILETYPE, K_SETFPREC, K_SETDPREC, K_SETFORMAT, K_CONVERT, K_NKINDS
+    K_SETFILETYPE, K_SETFPREC, K_SETDPREC, K_SETFORMAT, K_CONVERT,
+    K_ALLOCINIT, K_NKINDS
 };
 static const char *kind_names[K_NKINDS] = {
     "Init", "Resize", "SetType", "AddFreq", "SetFreq", "GetFreq",
@@ -402,7 +403,8 @@ static const char *kind_names[K_NKINDS] = {
     "SetCell", "GetCell", "SetMatrix", "GetMatrix", "SetFromVec",
     "GetToVec", "GetZ0", "SetZ0", "GetZ0Vec", "SetZ0Vec", "SetAllZ0",
     "HasFz0", "GetFZ0", "SetFZ0", "GetFZ0Vec", "SetFZ0Vec",
-    "SetFiletype", "SetFprec", "SetDprec", "SetFormat", "Convert"
+    "SetFiletype", "SetFprec", "SetDprec", "SetFormat", "Convert",
+    "AllocInit"
 };
 
 #define MAXVEC 64
@@ -708,6 +710,29 @@ static void exec_op(const op_t *op)
 
     if (op->kind == K_CONVERT) {
 	exec_convert(op);
+	return;
+    }
+    if (op->kind == K_ALLOCINIT) {
+	/* vnadata_alloc_and_init on a temporary object */
+	vnadata_t *t;
+
+	begin_call();
+	t = LIB(vnadata_alloc_and_init(vt_errfn, NULL,
+		    (vnadata_parameter_type_t)op->t, op->a[0], op->a[1],
+		    op->a[2]));
+	end_ptr(&oc, t, 1);
+	vt_put("{\"e\":\"AllocInit\",\"o\":%d,\"t\":\"%s\",\"r\":%d,\"c\":%d,"
+		"\"n\":%d,", op->o, type_name(op->t), op->a[0], op->a[1],
+		op->a[2]);
+	put_outcome(&oc);
+	vt_put(",\"got\":%d", t != NULL);
+	if (t != NULL) {
+	    vt_put(",");
+	    put_obs("obs", t);
+	    LIBV(vnadata_free(t));
+	}
+	vt_put("}");
+	vt_end_line();
 	return;
     }
     memset(&oc, 0, sizeof(oc));
@@ -1150,6 +1175,7 @@ static void op_from_template(const char *tmpl, op_t *op, int salt)
     switch (op->kind) {
     case K_INIT:
     case K_RESIZE:
+    case K_ALLOCINIT:
 	op->t = tmpl_type(tok[1], 0, salt);
 	for (int i = 0; i < 3; ++i)
 	    op->a[i] = resolve(tok[2 + i], 0);
@@ -1303,6 +1329,7 @@ static const char *alpha_full[] = {
     "Convert 0 0 ZIN", "Convert 0 0 Z", "Convert 0 0 S", "Convert 0 0 T",
     "Convert 0 1 ZIN", "Convert 0 1 Y", "Convert 0 0 BAD", "Convert 1 0 S",
     "Convert 0 0 same", "Convert 0 1 same",
+    "AllocInit S 2 2 1", "AllocInit T 1 1 1",
 };
 #define N_FULL ((int)(sizeof(alpha_full) / sizeof(alpha_full[0])))
 
@@ -1488,7 +1515,13 @@ static void random_op(vt_rng_t *r, op_t *op, int maxd, int maxf)
     int ports = rows > cols ? rows : cols;
     int k = vt_below(r, 1000);
 
-    if (k < 40) {
+    if (k < 8) {
+	op_clear(op, K_ALLOCINIT, o);
+	op->a[0] = pick_dim(r, maxd);
+	op->a[1] = vt_below(r, 3) ? op->a[0] : pick_dim(r, maxd);
+	op->a[2] = pick_dim(r, maxf);
+	op->t = pick_type(r, op->a[0], op->a[1]);
+    } else if (k < 40) {
 	op_clear(op, K_INIT, o);
 	op->a[0] = pick_dim(r, maxd);
 	op->a[1] = vt_below(r, 3) ? op->a[0] : pick_dim(r, maxd);
@@ -1640,6 +1673,30 @@ static void run_rand(uint64_t seed, long from, long to, int len)
 
 	vt_seed(&r, seed * 1000003ull + (uint64_t)c);
 	begin_case("rand:%llu:%ld:%d", (unsigned long long)seed, c, len);
+	if (c % 16 == 5) {
+	    /* allocation growth: many frequencies added one by one, the
+	     * impedance mode switched on the way, then shrink and regrow */
+	    op_t op;
+	    int many = 60 + vt_below(&r, 80);
+
+	    run_template(vt_below(&r, 2) ? "Init S 1 1 0" : "Init - 1 2 0", 0);
+	    for (int i = 0; i < many; ++i) {
+		op_clear(&op, K_ADDFREQ, 0);
+		op.v = fresh_real();
+		exec_op(&op);
+		if (i == 3 || i == 57)
+		    run_template("SetFZ0 nf-1 0 v8", 0);
+		if (i == 30)
+		    run_template("SetZ0 0 v4", 0);
+		if (i % 9 == 0)
+		    run_template("SetCell nf-1 0 c-1 v7", 0);
+	    }
+	    run_template("Resize same r c 2", 0);
+	    run_template("Resize same r c 70", 0);
+	    run_template("Resize - 2 2 nf", 0);
+	    end_case();
+	    continue;
+	}
 	for (int i = 0; i < len; ++i) {
 	    op_t op;
 
@@ -1849,6 +1906,8 @@ int main(int argc, char **argv)
 	    printf("%ld\n", N_PREFIX * ipow(N_CORE, atoi(argv[4])));
 	else if (strcmp(argv[3], "conv") == 0)
 	    printf("%d\n", nconv * CONV_VARIANTS);
+	else if (strcmp(argv[3], "alpha") == 0)
+	    printf("%d %d %d\n", N_FULL, N_CORE, N_PREFIX);
 	else
 	    return 3;
 	return 0;
